@@ -42,7 +42,34 @@ func inRepo(fn *ssa.Function) bool {
 	return p != nil && strings.HasPrefix(p.Path(), "go.etcd.io/bbolt")
 }
 
+func (ef *Effects) reg(name, elemSort string) {
+	if _, ok := ef.eng.heapSorts[name]; ok {
+		return
+	}
+	if strings.HasPrefix(name, "E$") {
+		ef.eng.heapSorts[name] = arr2Sort(elemSort)
+	} else {
+		ef.eng.heapSorts[name] = arrSort(elemSort)
+	}
+}
+
 func (ef *Effects) typeComps(base string, t types.Type, out map[string]bool) {
+	defer func() {
+		if base == "" {
+			return
+		}
+		switch kindOf(t) {
+		case KSlice:
+			for _, suf := range []string{".arr", ".off", ".len", ".cap"} {
+				ef.reg(base+suf, "Int")
+			}
+		case KIface:
+			ef.reg(base+".tag", "Int")
+			ef.reg(base+".ref", "Int")
+		case KInt, KPtr, KBool, KStr, KReal:
+			ef.reg(base, sortOfKind(kindOf(t)))
+		}
+	}()
 	switch kindOf(t) {
 	case KStruct:
 		s := t.Underlying().(*types.Struct)
@@ -145,6 +172,22 @@ func (ef *Effects) freeVarHeap(fn *ssa.Function, fv *ssa.FreeVar) string {
 		}
 	}
 	return "C$" + typeKey(derefType(fv.Type()))
+}
+
+func (ef *Effects) mapHeapNames(mt *types.Map, out map[string]bool) {
+	ks, vs := mapSorts(mt)
+	if ks == "" {
+		ks = "Int"
+	}
+	b := mapHeapBase(mt)
+	if _, ok := ef.eng.heapSorts[b+".dom"]; !ok {
+		ef.eng.heapSorts[b+".dom"] = fmt.Sprintf("(Array Int (Array %s Bool))", ks)
+		ef.eng.heapSorts[b+".card"] = "(Array Int Int)"
+		if vs != "" {
+			ef.eng.heapSorts[b+".val"] = fmt.Sprintf("(Array Int (Array %s %s))", ks, vs)
+		}
+	}
+	mapHeapNames(mt, out)
 }
 
 func mapHeapNames(mt *types.Map, out map[string]bool) {
@@ -290,7 +333,7 @@ func (ef *Effects) modNames(pkg string, env map[string]types.Type, m Expr, out m
 			t := ef.staticType(pkg, env, n.Args[0])
 			if t != nil {
 				if mt, ok := t.Underlying().(*types.Map); ok {
-					mapHeapNames(mt, out)
+					ef.mapHeapNames(mt, out)
 					return
 				}
 			}
@@ -301,7 +344,7 @@ func (ef *Effects) modNames(pkg string, env map[string]types.Type, m Expr, out m
 				kt, e1 := ef.eng.resolveType(pkg, k.V)
 				vt, e2 := ef.eng.resolveType(pkg, v.V)
 				if e1 == nil && e2 == nil {
-					mapHeapNames(types.NewMap(kt, vt), out)
+					ef.mapHeapNames(types.NewMap(kt, vt), out)
 					return
 				}
 			}
@@ -385,7 +428,7 @@ func (ef *Effects) analyze(fn *ssa.Function) {
 			case *ssa.Store:
 				ef.storeTargets(fn, i.Addr, d)
 			case *ssa.MapUpdate:
-				mapHeapNames(i.Map.Type().Underlying().(*types.Map), d)
+				ef.mapHeapNames(i.Map.Type().Underlying().(*types.Map), d)
 			case *ssa.Send:
 				d["G$sent"] = true
 				d["G$sentnil"] = true
@@ -410,11 +453,11 @@ func (ef *Effects) callSite(fn *ssa.Function, cc *ssa.CallCommon, d map[string]b
 				ef.typeComps("E$"+typeKey(sl.Elem()), sl.Elem(), d)
 			}
 		case "delete":
-			mapHeapNames(cc.Args[0].Type().Underlying().(*types.Map), d)
+			ef.mapHeapNames(cc.Args[0].Type().Underlying().(*types.Map), d)
 		case "clear":
 			switch u := cc.Args[0].Type().Underlying().(type) {
 			case *types.Map:
-				mapHeapNames(u, d)
+				ef.mapHeapNames(u, d)
 			case *types.Slice:
 				ef.typeComps("E$"+typeKey(u.Elem()), u.Elem(), d)
 			}
@@ -613,7 +656,7 @@ func (ef *Effects) loopWrites(fn *ssa.Function, li *loopInfo) map[string]bool {
 			case *ssa.Store:
 				ef.storeTargets(fn, i.Addr, d)
 			case *ssa.MapUpdate:
-				mapHeapNames(i.Map.Type().Underlying().(*types.Map), d)
+				ef.mapHeapNames(i.Map.Type().Underlying().(*types.Map), d)
 			case *ssa.Send:
 				d["G$sent"] = true
 				d["G$sentnil"] = true
@@ -632,7 +675,7 @@ func (ef *Effects) loopWrites(fn *ssa.Function, li *loopInfo) map[string]bool {
 					ef.typeComps("A$"+sanitize(funcKey(fn))+"$"+i.Name(), et, d)
 				}
 			case *ssa.MakeMap:
-				mapHeapNames(i.Type().Underlying().(*types.Map), d)
+				ef.mapHeapNames(i.Type().Underlying().(*types.Map), d)
 			case *ssa.MakeSlice:
 				et := i.Type().Underlying().(*types.Slice).Elem()
 				ef.typeComps("E$"+typeKey(et), et, d)
